@@ -15,6 +15,8 @@ rejects are skipped by the caller (they are C10's business).
 Rules are bundled four to a theory (same atom kinds, so the search menu stays small); each rule of a bundle
 has its own witness predicate, so one rule's conclusions cannot mask another's.
 
+S3 (premise equalities) and S4 (one generating atom plus two fully bound atoms) are described at their generators.
+
 `python3 lib/sgen.py` rewrites corpus/s/ (committed; the check reads the files).
 """
 import itertools, json, os, sys
@@ -178,11 +180,42 @@ def s3_theories():
     return out
 
 
+def s4_theories():
+    """S4 (a generating atom plus two fully bound atoms): `if A1; if A2; if A3; then w(vars)` where A1 is q(x,y) or
+    t(x,y,z) and A2, A3 are two different atoms over variables of A1 only (so both are compiled to emptiness guards at
+    different nesting depths). All unordered pairs from the pools below."""
+    pools = {
+        "t(x, y, z)": ["p(x)", "p(y)", "p(z)", "q(x, y)", "q(y, x)", "q(x, z)", "q(z, x)", "q(y, z)", "q(z, y)",
+                       "t(x, z, y)", "t(y, x, z)", "t(y, z, x)", "t(z, x, y)", "t(z, y, x)"],
+        "q(x, y)": ["p(x)", "p(y)", "q(y, x)", "q(x, x)", "q(y, y)", "t(x, y, x)", "t(x, x, y)", "t(y, x, y)"],
+    }
+    rules = []
+    for a1, pool in pools.items():
+        for i in range(len(pool)):
+            for j in range(i + 1, len(pool)):
+                rules.append((a1, pool[i], pool[j], 3 if a1.startswith("t") else 2))
+    out = []
+    for start in range(0, len(rules), BUNDLE):
+        chunk = rules[start:start + BUNDLE]
+        k = start // BUNDLE
+        name = f"s_guard_{'abcdefghijklmnopqrstuvwxyz'[k // 26]}{'abcdefghijklmnopqrstuvwxyz'[k % 26]}"
+        lines = list(SIG)
+        body, wit = [], []
+        for ri, (a1, a2, a3, nv) in enumerate(chunk):
+            w = f"w{'abcd'[ri]}"
+            wit.append(w)
+            lines.append(f"pred {w}({WITNESS[nv]});")
+            body += [f"rule r{'abcd'[ri]} {{", f"    if {a1};", f"    if {a2};", f"    if {a3};", f"    then {w}({', '.join(VARS[:nv])});", "}"]
+        meta = {"no_insert": wit, "menu_rels": ["p", "q", "t"], "sweep": "S4", "max_defines": 0}
+        out.append((name, "//@ " + json.dumps(meta) + "\n" + "\n".join(lines + body) + "\n"))
+    return out
+
+
 def main():
     root = os.path.dirname(os.path.dirname(os.path.abspath(__file__)))
     d = os.path.join(root, "corpus", "s")
     os.makedirs(d, exist_ok=True)
-    want = dict(bundle_theories() + s2_candidates() + s3_theories())
+    want = dict(bundle_theories() + s2_candidates() + s3_theories() + s4_theories())
     for f in os.listdir(d):
         if f.endswith(".eql") and f[:-4] not in want:
             os.unlink(os.path.join(d, f))
